@@ -143,6 +143,12 @@ func vxKeys() []*vxKey {
 		add("rsa3072", "rsa", 3072, k7, e)
 		k8, e := rsa.GenerateKey(rand.Reader, 1024)
 		add("rsa1024", "rsa", 1024, k8, e)
+		// well-formed keys whose modulus is a bit short of the nominal size (generators that do not force the top
+		// bits of the primes produce them): one bit below the engine's floor and below a role's key_bits
+		k9, e := rsa.GenerateKey(rand.Reader, 2047)
+		add("rsa2047", "rsa", 2047, k9, e)
+		k10, e := rsa.GenerateKey(rand.Reader, 3071)
+		add("rsa3071", "rsa", 3071, k10, e)
 	})
 	return vxPool
 }
